@@ -709,6 +709,11 @@ func modeSpecs() []*spec {
 		mk(3, "unrelated", "-shellcheck=", "-pyflakes="),
 		mk(3, "root", "-shellcheck=", "-pyflakes=", "-config-file", "no/such/config.yaml", ".github/workflows/a.yml"),
 	}
+	// a -format template that fails when it is executed on a diagnostic is a fatal error for one file
+	// as for several
+	for _, files := range [][]string{{".github/workflows/a.yml"}, {".github/workflows/b.yml"}, {".github/workflows/a.yml", ".github/workflows/b.yml"}} {
+		out = append(out, mk(3, "root", append([]string{"-shellcheck=", "-pyflakes=", "-format", "{{range $e := .}}{{$e.Nope}}{{end}}"}, files...)...))
+	}
 	// a broken configuration of the repository is a fatal error for one file, for several, for none
 	for _, cfg := range []string{"paths:\n  'a[':\n    ignore: [x]\n", "paths:\n  '**':\n    ignore: ['(unclosed']\n", "self-hosted-runner: [\n"} {
 		for _, files := range [][]string{{".github/workflows/a.yml"}, {".github/workflows/a.yml", ".github/workflows/b.yml"}, {}} {
